@@ -214,7 +214,7 @@ def desc_json_ok(desc):
 
 def python_default_ok(d, shape):
     """exec the generated module; the class / property default must still be d (realised text)."""
-    from vf.common import parse_s, serialize_python, exec_module, jeq, NotPassed
+    from vf.common import parse_s, serialize_python, exec_generated, jeq, NotPassed
 
     if shape == "class":
         S = {"type": "object", "title": "T", "properties": {"p": {"type": "integer"}}, "default": d}
@@ -223,7 +223,9 @@ def python_default_ok(d, shape):
     else:
         S = {"type": "object", "title": "T", "properties": {"p": {"type": "array", "items": {"anyOf": [{"type": "integer"}, {"type": "string"}], "default": d}}}}
     el = parse_s(S)
-    ns = exec_module(serialize_python(el))
+    ns = exec_generated(serialize_python(el))
+    if ns is None:
+        return False
     T = ns["T"]
     if shape == "class":
         got = T.default
